@@ -552,7 +552,7 @@ def run(ctx):
         raise Infra("generator wrote too little: %d/%d/%d" % (len(graph), len(sigs), len(rets)))
     for lst in (graph, sigs, rets):
         lst.sort(key=lambda b: json.dumps([b["ret"], b["nfix"], b["args"]]))
-    beh = select(ctx, graph, 120 if q else 6) + select(ctx, sigs, 16 if q else 2) + select(ctx, rets, 3 if q else 1)
+    beh = select(ctx, graph, 120 if q else 6) + select(ctx, sigs, 16 if q else 8) + select(ctx, rets, 3 if q else 1)
     probes = strata(ctx, graph, 1 if q else 4) + strata(ctx, sigs, 1 if q else 2)
     cases = make_cases(beh, ctx.seed, probes)
     b0 = beh[len(beh) // 2]
